@@ -126,7 +126,8 @@ theorem C08_shape_power (x y z : PT) :
     visit pyTables (.power x (.factor .MINUS y)) =
       .binOp (visit pyTables x) .Pow (.unaryOp .USub (visit pyTables y)) := by
   rw [C08_tables_are_cpython]
-  refine ⟨?_, ?_, ?_⟩ <;> simp [visit, mkBin_cpython, mkUn_cpython, lookup_factor, factorTok]
+  have hp : ∀ b, (cpythonTables b).powOp = .Pow := fun _ => rfl
+  refine ⟨?_, ?_, ?_⟩ <;> simp only [visit, mkBin_cpython, mkUn_cpython, lookup_factor, factorTok, hp]
 
 /-- `body if test else orelse`: test is the second disjunction, body the first -/
 theorem C08_shape_ternary (d0 d1 e : PT) :
@@ -149,8 +150,13 @@ theorem C08_shape_call (p x y z w : PT) (k : String) :
     visit pyTables (.call p [.pos, .kw k, .star, .dstar] [x, y, z, w]) =
       .call (visit pyTables p) [visit pyTables x, .starred (visit pyTables z)]
         [.keyword (some k) (visit pyTables y), .keyword none (visit pyTables w)] := by
-  have hx := visit_plain pyTables x
-  simp [visit, visitL, zipArgs, mkArg, List.filter, isKeyword, hx.1]
+  have hx := (visit_plain pyTables x).1
+  simp only [visit, visitL, zipArgs, mkArg]
+  rw [List.filter_cons_of_pos (by simp [hx]), List.filter_cons_of_neg (by simp [isKeyword]),
+    List.filter_cons_of_pos (by simp [isKeyword]), List.filter_cons_of_neg (by simp [isKeyword]),
+    List.filter_cons_of_neg (by simp [hx]), List.filter_cons_of_pos (by simp [isKeyword]),
+    List.filter_cons_of_neg (by simp [isKeyword]), List.filter_cons_of_pos (by simp [isKeyword])]
+  simp
 
 /-- evaluation order is observable: `f(k=b, *a)` reads `a` before `b` (positional and `*`
     arguments first), exactly as the rebuilt ast does -/
